@@ -37,7 +37,7 @@ CHECKS = {
   ref="DESIGN.md section 3 C07"),
  "C20": dict(
   technique="runtime monitoring: history checkers against sequential models (nonce, signers, wallet ledger) over random operation sequences, plus golden-answer comparison under cache clears/overflows, backend switching and multi-threaded schedules with sys.monitoring yield injection",
-  text="Random call histories on MuSig2 secret nonces (ecc.musig2.sign and psbt.musig2.partial_sign), on dsa/ssa Signer and SoftwareSigner objects (incl. the KeyManager face) and on every wallet kind are recorded at the client boundary and checked after every step against small sequential models (at most one successful signature per nonce and a zeroed nonce afterwards; no signature from a dead signer; next_address = lowest index above all handed out, ledger ordered and duplicate-free). A battery of ~300 pure calls is re-answered in shuffled order, after cache clears and overflows, across backend switches and from 4-8 threads under seeded yield injection with a backend-toggling thread; every answer must equal the quiet-process one. Evidence reports switches, switch points and distinct schedules observed.",
+  text="Random call histories on MuSig2 secret nonces (ecc.musig2.sign and psbt.musig2.partial_sign), on dsa/ssa Signer and SoftwareSigner objects (incl. the KeyManager face) and on every wallet kind are recorded at the client boundary and checked after every step against small sequential models (at most one successful signature per nonce and a zeroed nonce afterwards; no signature from a dead signer; next_address = lowest index above all handed out, ledger ordered and duplicate-free). A battery of ~300 pure calls is re-answered in shuffled order, after cache clears and overflows, across backend switches and from 4-8 threads under seeded yield injection with a backend-toggling thread; every answer must equal the quiet-process one. Concurrent nonce rounds hand one secret nonce to 2-6 threads released together (interpreter switch intervals 5 ms .. 1 us, nothing injected) and allow at most one signature. Evidence reports switches, switch points, distinct schedules and the rounds by number of callers that signed.",
   note="Trusted base: the sequential models in rv/props/c20.py; CPython's GIL makes statement-level interleaving the granularity reached; interleavings inside the bindings' C calls are not controllable. A caller copying a secret nonce before use is out of scope.",
   ref="DESIGN.md section 3 C20"),
  "C19": dict(
@@ -77,7 +77,7 @@ CHECKS = {
   ref="DESIGN.md section 3 C13"),
  "C16": dict(
   technique="runtime monitoring: protocol-completion monitor over honest multi-party executions judged by independent references (BIP340 verifier, BIP327 KeyAgg/sign transcription, BIP352 sender/scanner, BIP324 xswiftec, BIP374 DLEQ), both arms",
-  text="MuSig2 sessions (1..5 signers, duplicates, permutations, plain and x-only tweak sequences, adaptor sessions, BIP373 PSBT roles ending in an engine-accepted spend), ECDH on catalogued and toy curves, ElligatorSwift, ECIES, DLEQ, Pedersen/Borromean and silent-payment sender/scanner flows (mixed inputs, repeated and labelled recipients, decoys, BIP375 roles) are executed end to end; every partial signature must verify, the aggregate must be a valid BIP340 signature for the reference-computed key, both parties must derive the reference secret, altered statements must fail, and every created output must be found with a key that opens it.",
+  text="MuSig2 sessions (1..5 signers, duplicates, permutations, plain and x-only tweak sequences, adaptor sessions, BIP373 PSBT roles for key path and script path sessions ending in an engine-accepted spend), ECDH on catalogued and toy curves, ElligatorSwift, ECIES, DLEQ, Pedersen/Borromean and silent-payment sender/scanner flows (mixed inputs, repeated and labelled recipients, decoys, BIP375 roles) are executed end to end; every partial signature must verify, the aggregate must be a valid BIP340 signature for the reference-computed key, both parties must derive the reference secret, altered statements must fail, and every created output must be found with a key that opens it.",
   note="Trusted base: rv/ref/keyagg.py, bip352.py, ellswift.py, dleq.py, bip340.py (self-tested on the BIP327/352/374/324 vector files). Adaptor sessions and ElligatorSwift on other curves have no published reference and are judged by completion/agreement only.",
   ref="DESIGN.md section 3 C16"),
  "C18": dict(
@@ -97,7 +97,7 @@ CHECKS = {
   ref="DESIGN.md section 3 C14"),
  "C15": dict(
   technique="runtime monitoring: type-directed expression generation, identities on the real compiler/parser, satisfactions executed on the library's engine and on the independent Core model under an executed-op / stack-depth meter hooked into the interpreter, semantic evaluator of the spending condition as oracle for 'condition false'",
-  text="For sane miniscript expressions of both contexts (seeded with the vendored corpus, grown by same-type subtree replacement): len(script()) == script_size, from_script(script()) compiles back to the same script, parse(str(node)) == node; for many assignments of available signatures, preimages, lock time and sequence values around every after()/older(): a produced witness must be accepted by verify_input on a real P2WSH / tapscript spend and by rv/ref/core.py, stay within max_witness_size / max_stack_items / max_ops (metered by hooks on script_op_count and assert_stack_size), and exist only where an independent semantic evaluator says the spending condition is true.",
+  text="For sane miniscript expressions of both contexts (seeded with the vendored corpus, grown by same-type subtree replacement): len(script()) == script_size, from_script(script()) compiles back to the same script, parse(str(node)) == node; for many assignments of available signatures, preimages, lock time and sequence values around every after()/older(): a produced witness must be accepted by verify_input on a real P2WSH / tapscript spend and by rv/ref/core.py, stay within max_witness_size / max_stack_items / max_ops (metered by hooks on script_op_count and assert_stack_size), and exist only where an independent semantic evaluator says the spending condition is true. The PSBT entry (descriptors.miniscript_solver on a psbt holding the same signatures, preimages and transaction) is judged the same way.",
   note="Trusted base: rv/ref/miniscript.py (BIP379 table, semantic evaluator, self-tested against an exhaustive witness search under the Core model on small expressions), rv/ref/core.py, rv/ref/signers.py. The converse (condition true, no satisfaction) is a statistic.",
   ref="DESIGN.md section 3 C15"),
  "C12": dict(
